@@ -17,7 +17,7 @@ static void make_strs(void) {
 }
 static int op_fault(int argc, char **argv, FILE *o) {
     const char *api, *mode; uint64_t i = 0; int rc = 99; char extra[256] = "";
-    unsigned char out[64], salt[32]; char s[128];
+    unsigned char out[256], salt[32]; char s[128];
     if (argc < 2) return -1;
     api = argv[0]; mode = argv[1];
     if (argc > 2 && hx_u64(argv[2], &i)) return -1;
@@ -29,6 +29,9 @@ static int op_fault(int argc, char **argv, FILE *o) {
     hxw_count_on = 1;
     if (!strcmp(api, "argon2id_raw")) rc = crypto_pwhash_argon2id(out, 32, PW, strlen(PW), salt, 1, MEM, crypto_pwhash_argon2id_ALG_ARGON2ID13);
     else if (!strcmp(api, "argon2i_raw")) rc = crypto_pwhash_argon2i(out, 32, PW, strlen(PW), salt, 3, MEM, crypto_pwhash_argon2i_ALG_ARGON2I13);
+    else if (!strcmp(api, "argon2id_raw65")) rc = crypto_pwhash_argon2id(out, 65, PW, strlen(PW), salt, 1, MEM, crypto_pwhash_argon2id_ALG_ARGON2ID13);   /* output longer than one BLAKE2b block */
+    else if (!strcmp(api, "argon2i_raw200")) rc = crypto_pwhash_argon2i(out, 200, PW, strlen(PW), salt, 3, MEM, crypto_pwhash_argon2i_ALG_ARGON2I13);
+    else if (!strcmp(api, "pwhash_raw16")) rc = crypto_pwhash(out, 16, PW, strlen(PW), salt, 1, MEM, crypto_pwhash_ALG_DEFAULT);
     else if (!strcmp(api, "pwhash_raw")) rc = crypto_pwhash(out, 32, PW, strlen(PW), salt, 1, MEM, crypto_pwhash_ALG_DEFAULT);
     else if (!strcmp(api, "argon2id_str")) { rc = crypto_pwhash_argon2id_str(s, PW, strlen(PW), 1, MEM); }
     else if (!strcmp(api, "argon2i_str")) { rc = crypto_pwhash_argon2i_str(s, PW, strlen(PW), 3, MEM); }
